@@ -9,7 +9,7 @@ from typing import Any, Dict, List, Optional, Set, Tuple
 from engine.cfg import CFG
 from engine.consteval import ConstEval, NotConstant
 from engine.index import AnalysisError, FuncInfo, calls_in, const_str, unparse, walk_no_nested
-from engine.absint import ModuleEnv
+from engine.absint import AbsObj, BoundRepoMethods, ModuleEnv
 from engine.pyinterp import Env, Function, Interp, Stub, Unsupported
 from rules.common import DAILY_MODEL, method
 
@@ -77,6 +77,10 @@ class Meter(Stub):
             m.selected = set(k.cells)
             return m
         raise Unsupported("meter subscript")
+
+
+class _BoundSelf(AbsObj, BoundRepoMethods):
+    """The model object of an interpreted method: attributes set by the rule, every other method is the repository's own, interpreted."""
 
 
 class NS(Stub):
@@ -201,7 +205,8 @@ def run(chk):
         cd = combo_dicts[0]
         settings = NS(split_selection=NS(allow_separate_summer=user[0], allow_separate_shoulder=user[1], allow_separate_winter=user[2],
                                          allow_separate_weekday_weekend=user[3], reduce_splits_by_gaussian=use_gauss, reduce_splits_num_std=[1.4, 0.89]))
-        selfstub = NS(settings=settings, df_meter=Meter(table), combo_dictionary=cd, day_options=lits["day_options"], seasonal_options=lits["seasonal_options"])
+        selfstub = _BoundSelf({dm.name, "DailyModel"}, settings=settings, df_meter=Meter(table), combo_dictionary=cd, day_options=lits["day_options"], seasonal_options=lits["seasonal_options"])
+        selfstub._bind_repo(chk, dm, it, {})
         captured = {}
 
         class Filt(Stub):
@@ -300,7 +305,8 @@ def run(chk):
             for comp in c.split("__"):
                 it = Interp()
                 env = ModuleEnv(chk.repo, ms.module, it, {})
-                selfm = NS(combo_dictionary=cd, df_meter=Meter(plenty))
+                selfm = _BoundSelf({dm.name, "DailyModel"}, combo_dictionary=cd, df_meter=Meter(plenty))
+                selfm._bind_repo(chk, dm, it, {})
                 try:
                     res = Function(ms.node, env, it)(selfm, comp, Meter(plenty))
                 except Unsupported as e:
